@@ -1205,10 +1205,13 @@ def c06(res, tier, seed, lib):
 def c14(res, tier, seed, lib):
     rnd = random.Random(seed)
     runs = 10 if tier == "thorough" else 3
-    for i in range(runs):
+    preset = [(3, ["red", "red"]), (4, ["teal", "teal", "teal", "navy"]), (3, ["#102030", "#aabbcc", "#102030"])]
+    for i in range(runs + len(preset)):
         n = rnd.choice([2, 3, 4])
         kf = rnd.randrange(0, n + 1)
         fixed = ["#%02x%02x%02x" % (rnd.randrange(256), rnd.randrange(256), rnd.randrange(256)) for _ in range(kf)]
+        if i >= runs:
+            n, fixed = preset[i - runs]   # the same fixed colour more than once
         metric = rnd.choice(["CIE76", "CIEDE2000"])
         rc, out, err = run_cli(["distinct", "-m", metric, str(n)] + fixed, timeout=120)
         inp = "distinct -m %s %d %s" % (metric, n, fixed)
@@ -1217,7 +1220,8 @@ def c14(res, tier, seed, lib):
         res.check(rc == 0 and len(lines) == n, "distinct-prints-exactly-n", "cli:distinct", inp, "rc=%s %d lines %r" % (rc, len(lines), err[-100:]))
         finf = infos(fixed)
         for f in finf:
-            res.check(f.hsl in lines, "distinct-includes-fixed", "cli:distinct", inp, "%s not in %s" % (f.hsl, lines))
+            need = sum(1 for g in finf if g.hsl == f.hsl)
+            res.check(lines.count(f.hsl) >= need, "distinct-includes-fixed", "cli:distinct", inp, "%s expected %d times in %s" % (f.hsl, need, lines))
         if fixed and lines:
             res.check(lines[0] == finf[0].hsl, "distinct-first-fixed-stays-first", "cli:distinct", inp, lines[0])
     for argv, want in [(["distinct", "1"], 1), (["distinct", "0"], 1), (["distinct", "2", "red", "blue", "green"], 1),
